@@ -29,9 +29,13 @@ EXC = {'ValueError': ValueError, 'KeyError': KeyError, 'TypeError': TypeError, '
        'RuntimeError': RuntimeError, 'Custom': VerifBoomError, 'LookupError': LookupError,
        'StopIteration': StopIteration, 'PjrpcDeserializationError': exceptions.DeserializationError,
        'PjrpcIdentityError': exceptions.IdentityError, 'PjrpcBaseError': exceptions.BaseError,
-       'ValidationError': __import__('pjrpc.server.validators', fromlist=['ValidationError']).ValidationError}
+       'ValidationError': __import__('pjrpc.server.validators', fromlist=['ValidationError']).ValidationError,
+       'TimeoutError': TimeoutError, 'OSError': OSError, 'ZeroDivisionError': ZeroDivisionError,
+       'AsyncioTimeoutError': asyncio.TimeoutError, 'UnicodeDecodeError': lambda m: UnicodeDecodeError('utf-8', b'x', 0, 1, m),
+       'JSONDecodeError': lambda m: json.JSONDecodeError(m, 'doc', 0)}
 EXC_NAMES = ['ValueError', 'KeyError', 'TypeError', 'AssertionError', 'RuntimeError', 'VerifBoomError',
-             'LookupError', 'StopIteration', 'Traceback', 'DeserializationError', 'IdentityError', 'BaseError', 'ValidationError']
+             'LookupError', 'StopIteration', 'Traceback', 'DeserializationError', 'IdentityError', 'BaseError', 'ValidationError',
+             'TimeoutError', 'OSError', 'ZeroDivisionError', 'UnicodeDecodeError', 'JSONDecodeError']
 
 NOTJSON = {
     'empty': '', 'garbage': 'hello {', 'truncated': '{"jsonrpc": "2.0", "method": "ok", "id": 1',
@@ -211,19 +215,21 @@ def build(cfg, ev):
                    'r': 'resp' if isinstance(resp, pjrpc.Response) else 'nothing'})
         return resp
 
-    def short(request):
+    def short(request, kind='short'):
+        if kind == 'shortall':
+            return pjrpc.Response(id=request.id, result='mw_short')
         return UNSET if request.id is None else pjrpc.Response(id=request.id, result='mw_short')
 
     def make_mw(k, kind):
         if is_async:
             async def mw(request, context, handler):
                 r2 = mw_pre(k, kind, request)
-                resp = short(request) if kind == 'short' else await handler(r2, context)
+                resp = short(request, kind) if kind in ('short', 'shortall') else await handler(r2, context)
                 return mw_post(k, kind, request, resp)
         else:
             def mw(request, context, handler):
                 r2 = mw_pre(k, kind, request)
-                resp = short(request) if kind == 'short' else handler(r2, context)
+                resp = short(request, kind) if kind in ('short', 'shortall') else handler(r2, context)
                 return mw_post(k, kind, request, resp)
         return mw
 
